@@ -71,7 +71,7 @@ class Ref:
         return nd.value
 
     def slen(self, s):
-        return len(s.encode("utf-16-le")) // 2 if self.units else len(s)
+        return len(s.encode("utf-16-le", "surrogatepass")) // 2 if self.units else len(s)
 
     def sunits(self, s):
         """string as a list of 'characters' (code points or UTF-16 units)"""
